@@ -45,10 +45,80 @@ fn cx<T: Ord>(s: &mut [T], i: usize, j: usize, n: usize) {
     }
 }
 
-/// `Vec::into_boxed_slice` without the shrinking `realloc`
+/// `Vec::into_boxed_slice` without `realloc` on a symbolic size: the elements move into a fresh buffer
+/// of exactly `len` elements, chosen among the concrete sizes 0..=CAP (so the resulting `Box<[T]>`
+/// can be dropped by the code under test: Kani checks that `dealloc` sees the allocated layout).
 pub fn into_boxed_slice<T, A: Allocator>(v: Vec<T, A>) -> Box<[T], A> {
-    let (ptr, len, _cap, a) = v.into_raw_parts_with_allocator();
-    unsafe { Box::from_raw_in(std::ptr::slice_from_raw_parts_mut(ptr, len), a) }
+    let (ptr, len, cap, a) = v.into_raw_parts_with_allocator();
+    if len == cap {
+        return unsafe { Box::from_raw_in(std::ptr::slice_from_raw_parts_mut(ptr, len), a) };
+    }
+    assert!(len <= CAP, "into_boxed_slice model: capacity bound exceeded");
+    unsafe {
+        let a2: A = std::ptr::read(&a);
+        let mut w: Vec<T, A> = match len {
+            0 => Vec::with_capacity_in(0, a),
+            1 => Vec::with_capacity_in(1, a),
+            2 => Vec::with_capacity_in(2, a),
+            3 => Vec::with_capacity_in(3, a),
+            _ => Vec::with_capacity_in(CAP, a),
+        };
+        let dst = w.as_mut_ptr();
+        let mut i = 0;
+        while i < CAP {
+            if i < len {
+                std::ptr::write(dst.add(i), std::ptr::read(ptr.add(i)));
+            }
+            i += 1;
+        }
+        w.set_len(len);
+        drop(Vec::from_raw_parts_in(ptr, 0, cap, a2)); // frees the old buffer, no element drops
+        let (p2, l2, _c2, a3) = w.into_raw_parts_with_allocator();
+        Box::from_raw_in(std::ptr::slice_from_raw_parts_mut(p2, l2), a3)
+    }
+}
+
+/// `Vec::insert` / `Vec::remove` without `memmove` of a symbolic size (array theory in CBMC; measured:
+/// two symbolic attribute operations did not finish in 27 min / 12 GB): element-wise shifts over the
+/// fixed capacity.  Same panics as std (index out of bounds).
+pub fn insert<T, A: Allocator>(v: &mut Vec<T, A>, index: usize, x: T) {
+    unsafe {
+        if v.capacity() == 0 {
+            let a: A = std::ptr::read(v.allocator());
+            std::ptr::write(v, Vec::with_capacity_in(CAP, a));
+        }
+        let len = v.len();
+        assert!(index <= len, "insertion index (is {index}) should be <= len (is {len})");
+        assert!(len < v.capacity(), "insert model: capacity bound exceeded");
+        let p = v.as_mut_ptr();
+        let mut j = CAP - 1;
+        while j > 0 {
+            if j <= len && j > index {
+                std::ptr::write(p.add(j), std::ptr::read(p.add(j - 1)));
+            }
+            j -= 1;
+        }
+        std::ptr::write(p.add(index), x);
+        v.set_len(len + 1);
+    }
+}
+pub fn remove<T, A: Allocator>(v: &mut Vec<T, A>, index: usize) -> T {
+    unsafe {
+        let len = v.len();
+        assert!(index < len, "removal index (is {index}) should be < len (is {len})");
+        assert!(len <= CAP, "remove model: capacity bound exceeded");
+        let p = v.as_mut_ptr();
+        let out = std::ptr::read(p.add(index));
+        let mut j = 0;
+        while j + 1 < CAP {
+            if j >= index && j + 1 < len {
+                std::ptr::write(p.add(j), std::ptr::read(p.add(j + 1)));
+            }
+            j += 1;
+        }
+        v.set_len(len - 1);
+        out
+    }
 }
 
 /// `<[T]>::to_vec` into a fixed-capacity buffer
